@@ -261,6 +261,7 @@ class DEvent:
         self.flag = True
         if s:
             s.wake(lambda w: w is self)
+            s.yield_point('ev.set.done')     # a waiter may run before the setter's next statement
 
     def clear(self):
         self.flag = False
@@ -391,6 +392,7 @@ class DQueue:
         self.items.append(item)
         if s:
             s.wake(lambda w: w == ('notempty', self))
+            s.yield_point('q.put.done')
 
     def get(self, block=True, timeout=None):
         s = _current
